@@ -100,4 +100,12 @@ META.update({
         technique="property-based testing (rapid): generated concurrent scenarios with harness-owned gates on virtual time, admission invariants plus a reference-model lock-step over the serialised completions",
     ),
 })
+META.update({
+    "C15": dict(
+        text="Two generated-input checks. Differential (model-free): generated composition scenarios are run on fresh instances through the synchronous and through the asynchronous entry points and must return the same values, errors and invocation counts step by step. Protocol: every attempt is parked on a harness gate while up to 16 reader goroutines issue generated sequences of IsDone / Done / Get / Result / Error calls and the harness issues Cancel at generated points; a linearised log is judged: listeners precede anything that observed completion, Get/Result/Error never return before Done is closed, Done closed implies IsDone, all readers get identical values forever, values equal the sequential protocol, a Cancel that lands before completion under a retry or hedge policy yields ErrExecutionCanceled, Cancel after completion changes nothing. Sampling, not proof.",
+        design_ref="DESIGN.md section 6, C15",
+        note="The harness owns the execution's progress (gated attempts); reader interleavings are sampled by the Go scheduler. The narrow Cancel-vs-retry-initialisation window (D2) is exercised by C08's spin trials.",
+        technique="property-based testing (rapid): differential sync-vs-async runs of generated scenarios + generated reader/cancel programs against gated executions with history invariants",
+    ),
+})
 NOT_APPLICABLE = [dict(property_id=p, reason="check not built yet in this session (work in progress; DESIGN.md section 6 describes the planned property-based check)") for p in ALL if p not in META]
